@@ -8,6 +8,7 @@
 From Coq Require Import ZArith List Bool Lia.
 From MV Require Import Lib.Rigid Lib.OctZ Lib.ListIdx Model.Level2Model Model.Level2Move
   Model.Level2Exec Proofs.Level2C03.
+From MV Require Lib.RigidR3.
 Import ListNotations.
 
 Section AnyRigidAlgebra.
@@ -68,6 +69,39 @@ Print Assumptions C03_level2_covariant.
 Print Assumptions C03_level2_sensor_invariant.
 Print Assumptions C03_spec_covariant.
 Print Assumptions C03_spec_invariant.
+
+(* ---- the instance the property is about: R^3 with SO(3) (Lib/RigidR3.v, builder C10: orthogonal matrices
+   of determinant 1 acting on real triples, proved to satisfy RigidLaws).  V = R*R*R, G = SO3. *)
+Theorem C03_level2_covariant_R3 : forall (P : Type) (F : nat -> P -> RigidR3.V3 -> RigidR3.V3)
+  (g_eqb : RigidR3.SO3 -> RigidR3.SO3 -> bool) (flipx : RigidR3.V3 -> RigidR3.V3),
+  (forall a b : RigidR3.SO3, g_eqb a b = true -> a = b) ->
+  forall (g : RigidR3.SO3) (t : RigidR3.V3) (srcs : list (srcin (O := RigidR3.R3Ops) P)) (obs : list RigidR3.V3)
+    (sh : list nat) (sumup : bool),
+  srcs <> [] -> Forall (wf_src (O := RigidR3.R3Ops) P) srcs -> obs <> [] ->
+  getBH (O := RigidR3.R3Ops) P F g_eqb flipx (map (move_src (O := RigidR3.R3Ops) P g t) srcs)
+        [obs_sensor (O := RigidR3.R3Ops) (map (move_pt (O := RigidR3.R3Ops) g t) obs) sh] None sumup
+  = out_act (O := RigidR3.R3Ops) g (getBH (O := RigidR3.R3Ops) P F g_eqb flipx srcs [obs_sensor (O := RigidR3.R3Ops) obs sh] None sumup).
+Proof. exact (@level2_covariant RigidR3.R3Ops RigidR3.R3Laws). Qed.
+
+Theorem C03_level2_sensor_invariant_R3 : forall (P : Type) (F : nat -> P -> RigidR3.V3 -> RigidR3.V3)
+  (g_eqb : RigidR3.SO3 -> RigidR3.SO3 -> bool) (flipx : RigidR3.V3 -> RigidR3.V3),
+  (forall a b : RigidR3.SO3, g_eqb a b = true -> a = b) ->
+  forall (g : RigidR3.SO3) (t : RigidR3.V3) (srcs : list (srcin (O := RigidR3.R3Ops) P))
+    (sens : list (sensor (O := RigidR3.R3Ops))) (agg : option (list RigidR3.V3 -> RigidR3.V3)) (sumup : bool),
+  srcs <> [] -> Forall (wf_src (O := RigidR3.R3Ops) P) srcs -> Forall (wf_sensor (O := RigidR3.R3Ops)) sens -> wf_shapes (O := RigidR3.R3Ops) sens agg ->
+  getBH (O := RigidR3.R3Ops) P F g_eqb flipx (map (move_src (O := RigidR3.R3Ops) P g t) srcs) (map (move_sensor (O := RigidR3.R3Ops) g t) sens) agg sumup
+  = getBH (O := RigidR3.R3Ops) P F g_eqb flipx srcs sens agg sumup.
+Proof. exact (@level2_sensor_invariant RigidR3.R3Ops RigidR3.R3Laws). Qed.
+
+Theorem C03_level1_covariant_R3 : forall (P : Type) (F : nat -> P -> RigidR3.V3 -> RigidR3.V3)
+  (g : RigidR3.SO3) (t : RigidR3.V3) (k : nat) (p : RigidR3.V3) (r : RigidR3.SO3) (o : RigidR3.V3) (pr : P),
+  level1 (O := RigidR3.R3Ops) P F k (move_pt (O := RigidR3.R3Ops) g t p) (@gmul RigidR3.R3Ops g r) (move_pt (O := RigidR3.R3Ops) g t o) pr
+  = @act RigidR3.R3Ops g (level1 (O := RigidR3.R3Ops) P F k p r o pr).
+Proof. exact (@level1_covariant RigidR3.R3Ops RigidR3.R3Laws). Qed.
+
+Print Assumptions C03_level2_covariant_R3.
+Print Assumptions C03_level2_sensor_invariant_R3.
+Print Assumptions C03_level1_covariant_R3.
 
 (* non-vacuity: in the executable instance, a bare source and a two-leaf collection with paths of
    different lengths meet the hypotheses, the rotation is not the identity, and the field that is
